@@ -792,8 +792,16 @@ class Bridge(wiring.Component):
         m = Module()
 
         m.submodules.mux = self._mux
+        submodule_names = {"mux"}
         for reg, reg_name, _ in self.bus.memory_map.resources():
-            m.submodules["__".join(str(part) for part in reg_name)] = reg
+            # Distinct register names may be joined to the same string (e.g. ("a", "0") and
+            # ("a__0",)), or to "mux". Such a register is added as an anonymous submodule.
+            submodule_name = "__".join(str(part) for part in reg_name)
+            if submodule_name in submodule_names:
+                m.submodules += reg
+            else:
+                submodule_names.add(submodule_name)
+                m.submodules[submodule_name] = reg
 
         connect(m, flipped(self.bus), self._mux.bus)
 
